@@ -38,6 +38,25 @@ pub fn seeds(step: usize) -> Vec<Program> {
     out
 }
 
+/// Seeds from the generated space of C01: kind-agnostic expressions of <= 2 constructors in
+/// every context, every `step`-th one (the search skips those that are not accepted).
+pub fn agnostic_seeds(step: usize) -> Vec<Program> {
+    let all = crate::space::agnostic_exprs(2);
+    let mut out = Vec::new();
+    let mut i = 0usize;
+    for sz in [1usize, 2] {
+        for e in all[sz].iter() {
+            for c in 0..crate::space::N_CONTEXTS {
+                if i % step == 0 {
+                    out.push(crate::space::context(c, e));
+                }
+                i += 1;
+            }
+        }
+    }
+    out
+}
+
 fn emitted(texts: &[(String, String)]) -> Result<doc::Doc, String> {
     let files = pipeline::files_of(texts);
     match pipeline::run(&files, "main.oal") {
@@ -192,18 +211,21 @@ impl Engine for C05 {
             Tier::Quick => vec![
                 Phase::new("depth 1 from every fragment seed", json!({"step":1,"depth":1})),
                 Phase::new("depth 2 from every 30th fragment seed", json!({"step":30,"depth":2})),
+                Phase::new("depth 1 from every 2nd program of the kind-agnostic space (<= 2 constructors x 27 contexts)", json!({"step":2,"depth":1,"agnostic":true})),
             ],
             Tier::Thorough => vec![
                 Phase::new("depth 1 from every fragment seed", json!({"step":1,"depth":1})),
                 Phase::new("depth 2 from every 8th fragment seed", json!({"step":8,"depth":2})),
                 Phase::new("depth 3 from every 400th fragment seed", json!({"step":400,"depth":3})),
+                Phase::new("depth 1 from every program of the kind-agnostic space (<= 2 constructors x 27 contexts)", json!({"step":1,"depth":1,"agnostic":true})),
+                Phase::new("depth 2 from every 10th program of the kind-agnostic space", json!({"step":10,"depth":2,"agnostic":true})),
             ],
         }
     }
     fn run_phase(&self, phase: &Phase, sink: &mut Sink) {
         let step = phase.param["step"].as_u64().unwrap() as usize;
         let depth = phase.param["depth"].as_u64().unwrap() as usize;
-        let seeds = seeds(step);
+        let seeds = if phase.param["agnostic"].as_bool() == Some(true) { agnostic_seeds(step) } else { seeds(step) };
         for (i, p) in seeds.iter().enumerate() {
             let idx = i as u64;
             if !sink.mine(idx) {
@@ -242,7 +264,7 @@ impl Engine for C05 {
         }
     }
     fn rule(&self) -> String {
-        "breadth-first search from accepted fragment programs (seeds); transitions = one rewrite at one site: parenthesise any sub-expression, name a closed sub-expression with a fresh let, inline a plain declaration at one use, abstract a closed S[T] into a single-use function applied to T (T at a position that starts from the empty annotation), alpha-rename one binder or import qualifier with all its uses, swap two adjacent statements, insert one trivia token (space, newline, tab, block / line comment, multi-byte comment) at one token boundary, move every dependency-closed set of declarations into a new module imported unqualified / qualified; states deduplicated by text; invariant on every state: accepted and document equal to the seed's modulo names of implicit components. Non-trivial = seed with >= 1 applicable rewrite; distinct = distinct (seed, reachable-state count)".into()
+        "breadth-first search from accepted fragment programs and accepted programs of the kind-agnostic space (seeds); transitions = one rewrite at one site: parenthesise any sub-expression, name a closed sub-expression with a fresh let, inline a plain declaration at one use, abstract a closed S[T] into a single-use function applied to T (T at a position that starts from the empty annotation), alpha-rename one binder or import qualifier with all its uses, swap two adjacent statements, insert one trivia token (space, newline, tab, block / line comment, multi-byte comment) at one token boundary, move every dependency-closed set of declarations into a new module imported unqualified / qualified; states deduplicated by text; invariant on every state: accepted and document equal to the seed's modulo names of implicit components. Non-trivial = seed with >= 1 applicable rewrite; distinct = distinct (seed, reachable-state count)".into()
     }
     fn assumptions(&self) -> Vec<String> {
         vec![
